@@ -92,6 +92,8 @@ def install(reg):
 
     reg.handlers["is_jax_array"] = lambda I, a, k, n: B(isinstance(arr_ns(a[0]), Obj) and arr_ns(a[0]).f["name"].v == "jax")
     reg.handlers["is_torch_array"] = lambda I, a, k, n: B(isinstance(arr_ns(a[0]), Obj) and arr_ns(a[0]).f["name"].v == "torch")
+    reg.handlers["is_array_api_obj"] = lambda I, a, k, n: B(isinstance(a[0], Arr))
+    reg.handlers["array_api_compat.is_array_api_obj"] = reg.handlers["is_array_api_obj"]
     reg.handlers["array_api_compat.is_jax_array"] = reg.handlers["is_jax_array"]
     reg.handlers["array_api_compat.is_torch_array"] = reg.handlers["is_torch_array"]
 
@@ -99,7 +101,10 @@ def install(reg):
         x = a[0]
         v = arr_ns(x)
         if v is None:
-            raise Unsupported("array_namespace of an array without a namespace token")
+            if isinstance(x, Arr):
+                # an array whose namespace the contract does not track: some namespace, unknown which (comparisons with it go both ways)
+                return Sym(z3.Const(f"namespace_of<{x.key}>", Misc), "ns")
+            raise Unsupported("array_namespace of a value that is not an array")
         return v
     reg.handlers["array_namespace"] = array_namespace
     reg.handlers["array_api_compat.array_namespace"] = array_namespace
@@ -482,3 +487,41 @@ class FromSamples(Conversion, FromSamplesModel):
             Conversion.check(self, I, pre, r, target, want_width, tag, evidence=False)
         finally:
             g["cls"] = saved
+
+
+class ArrayToNamespace(Conversion):
+    """the helper every sampler uses to attach what the user's callables return (log-prior, log-likelihood, proposal density) to a population"""
+    qual = "samples:BaseSamples.array_to_namespace"
+    properties = ("C15",)
+    doc = ("the result lives in the sample set's namespace with the sample set's floating-point width (or the explicitly requested one), whatever "
+           "namespace and width the given array has; values preserved")
+
+    def shapes(self):
+        return [{"self": s, "sw": sw, "x": x, "xw": xw, "dtype": d} for s in ("numpy", "torch", "jax") for sw in (32, 64) for x in ("numpy", "torch", "jax")
+                for xw in (32, 64) for d in (None, "float32", "float64")]
+
+    def setup(self, I, shape):
+        s = mk_token_samples("BaseSamples", shape["self"], shape["sw"], PRESENT[0], I=I)
+        n = z3.Int("n_given")
+        I.path.assume(n >= 1)
+        arr = base_arr("given", "real", n, {"ns": ns(shape["x"]), "dtype": dt(FAMILY[shape["x"]], shape["xw"]), "requires_grad": False})
+        kw = {"dtype": Str(shape["dtype"])} if shape["dtype"] else {}
+        tag = f"[{shape['x']} float{shape['xw']} array into a {shape['self']} float{shape['sw']} sample set" + (f", dtype='{shape['dtype']}'" if shape["dtype"] else "") + "]"
+        return Pre(s, [arr], kw, ghost={"arr": arr, "shape": shape, "tag": tag})
+
+    def post(self, I, pre, r):
+        p, g = I.path, pre.ghost
+        q, sh, tag = self.qual, g["shape"], g["tag"]
+        ok = isinstance(r, Arr)
+        p.prove(z3.BoolVal(ok), f"{q}:C15:returns an array {tag}")
+        if not ok:
+            return
+        p.prove(arr_eq_goal(r, g["arr"]), f"{q}:C15:values preserved {tag}")
+        nsr = as_ns(r.meta.get("ns"))
+        p.prove(z3.BoolVal(nsr is not None and nsr.f["name"].v == sh["self"]), f"{q}:C15:result lives in the sample set's namespace {tag}")
+        want = int(sh["dtype"][-2:]) if sh["dtype"] else sh["sw"]
+        p.prove(z3.BoolVal(same_dtype(r.meta.get("dtype"), dt(FAMILY[sh["self"]], want))),
+                f"{q}:C15:result has the sample set's floating-point width (or the one requested), not the width of the given array {tag}")
+
+    def post_raise(self, I, pre, sig):
+        I.path.prove(z3.BoolVal(False), f"{self.qual}:C15:conversion succeeds for every pair of namespaces {pre.ghost['tag']} [{sig.exc}]", assume_after=False)
